@@ -31,8 +31,11 @@ fn gen(ctx: &GenCtx, i: u64) -> Option<Run> {
     let mlen = gen_len(&mut r, false).min(120);
     let footer = gen_opt_text(&mut r).map(|f| f.chars().take(12).collect::<String>());
     let assertion = if proto.has_assertion() { gen_opt_text(&mut r).map(|f| f.chars().take(12).collect::<String>()) } else { None };
-    let msg = ascii!(r, mlen);
-    let opts = IssueOpts { proto, layer, key, footer, assertion, now, message: msg.clone(), json_payload: Some(serde_json::json!({"data": msg})), extra_claims: vec![] };
+    // core layer: often a raw (non-JSON) message, with the very short ones over-represented - a wrong
+    // key that slips through authentication only shows if the garbage plaintext is still UTF-8
+    let raw = layer == Layer::Core && r.chance(1, 2);
+    let msg = if raw { text!(r, *r.pick(&[0usize, 0, 1, 1, 2, 3, 16, 40])) } else { ascii!(r, mlen) };
+    let opts = IssueOpts { proto, layer, key, footer, assertion, now, message: msg.clone(), json_payload: if raw { None } else { Some(serde_json::json!({"data": msg})) }, extra_claims: vec![] };
     let t = issue(&mut rb, &mut r, opts);
     let at = t.issued_at + r.range(1, HOUR - 2);
     let mut others: Vec<KeySpec> = vec![];
@@ -111,18 +114,43 @@ fn gen(ctx: &GenCtx, i: u64) -> Option<Run> {
         _ => {}
     }
     others.retain(|k| k != &kspec);
+    if raw && proto.is_local() {
+        // many random wrong keys against a short raw message (a 1-in-256 tag-check weakness needs volume)
+        let extra = if ctx.tier == Tier::Thorough { 2048 } else { 384 };
+        for _ in 0..extra {
+            others.push(KeySpec::Sym { hex: hex::encode(r.bytes(32)) });
+        }
+    }
+    // a long-lived parser that is handed the right key, then wrong keys, then the right key again:
+    // parse(token, key) takes the key per call, so nothing may be remembered from the earlier call
+    {
+        let vlayer = if raw { Layer::Core } else { random_layer(&mut r) };
+        let mut spec = plain_spec(&t, vlayer);
+        spec.default_validators = vlayer == Layer::Batteries;
+        spec.hash_seed = r.next();
+        let v = rb.verifier(spec);
+        rb.deliver(t.msg, v, at);
+        let take = others.len().min(6);
+        for k in 0..take {
+            let kid = rb.key(others[(k * 7 + i as usize) % others.len()].clone());
+            rb.push(Op::Deliver { msg: t.msg, to: v, now_ns: Ns(at), ticks: vec![], twin: false, control: None, key: Some(kid) });
+            if k % 2 == 1 {
+                rb.deliver(t.msg, v, at);
+            }
+        }
+    }
     for (n, ok) in others.into_iter().enumerate() {
         let kid = rb.key(ok);
-        let vlayer = ALL_LAYERS[(n + i as usize) % 3];
+        let vlayer = if raw { Layer::Core } else { ALL_LAYERS[(n + i as usize) % 3] };
         let mut spec = plain_spec(&t, vlayer);
         spec.key = kid;
         spec.default_validators = vlayer == Layer::Batteries;
         spec.hash_seed = r.next();
         let v = rb.verifier(spec);
-        rb.push(Op::Deliver { msg: t.msg, to: v, now_ns: Ns(at), ticks: vec![], twin: n % 5 == 0 && vlayer != Layer::Core, control: None });
+        rb.push(Op::Deliver { msg: t.msg, to: v, now_ns: Ns(at), ticks: vec![], twin: n % 5 == 0 && vlayer != Layer::Core, control: None, key: None });
     }
     // heal: right key, fresh verifier
-    let vlayer = random_layer(&mut r);
+    let vlayer = if raw { Layer::Core } else { random_layer(&mut r) };
     let mut spec = plain_spec(&t, vlayer);
     spec.default_validators = vlayer == Layer::Batteries;
     let v = rb.verifier(spec);
